@@ -9,17 +9,42 @@
  *   - the endpoint emits nothing beyond the alert already queued by the event;
  *   - receive calls report an error or a close request, never success / "need more" / "complete".
  * An event the endpoint does not recognise as an error (e.g. DTLS silently dropping a corrupt
- * datagram, or a warning alert) is counted and not judged here (C02 judges modified records). */
+ * datagram, or a warning alert) is counted and not judged here (C02 judges modified records),
+ * unless a reference table says it MUST end the session:
+ *   - received alerts: alert_must_kill(version, level, description) below;
+ *   - authentic illegal handshake messages / content types, corrupted records on a completed TLS connection;
+ *   - DTLS datagram truncated behind a complete record header (library-defined fatal error, own key).
+ * Send-side calls that must fail are events too; their refusal alone is not a session failure. */
 #include "mx_surgeon.h"
 #include "mx_scn.h"
 
-enum { EV_ALERT_IN = 0, EV_CORRUPT, EV_OVERSIZE, EV_ILLEGAL, EV_BADVERSION, EV_PEER_ALERT, EV_PEER_CLOSE, EV_AUTH_HS, EV_AUTH_ALERT, EV_AUTH_TYPE, EV_N };
-static const char *evname[] = { "inbound-alert", "corrupt-record", "oversize-record", "illegal-message", "bad-record-version", "peer-fatal-alert", "peer-close-notify", "authentic-illegal-handshake-message", "authentic-alert", "authentic-bad-content-type" };
+enum { EV_ALERT_IN = 0, EV_CORRUPT, EV_OVERSIZE, EV_ILLEGAL, EV_BADVERSION, EV_PEER_ALERT, EV_PEER_CLOSE, EV_AUTH_HS, EV_AUTH_ALERT, EV_AUTH_TYPE, EV_DTLS_TRUNC, EV_SEND_ERR, EV_N };
+static const char *evname[] = { "inbound-alert", "corrupt-record", "oversize-record", "illegal-message", "bad-record-version", "peer-fatal-alert", "peer-close-notify", "authentic-illegal-handshake-message", "authentic-alert", "authentic-bad-content-type", "dtls-truncated-datagram", "send-side-error" };
+/* EV_DTLS_TRUNC offset classes: where the datagram ends relative to the (valid, complete) record it carries */
+enum { TR_IN_HEADER = 0, TR_HEADER_ONLY, TR_MID_BODY, TR_ONE_SHORT, TR_SECOND_RECORD, TR_N };
+static const char *trname[] = { "inside-header", "header-only", "mid-body", "one-byte-short", "second-record-mid-body" };
+/* EV_SEND_ERR kinds: send-side API calls that must fail */
+enum { SE_OUTDATA_OVERSIZE = 0, SE_WRITEBUF_NO_RESERVE, SE_WRITEBUF_NEGATIVE, SE_OUTDATA_NULL, SE_N };
+static const char *sename[] = { "encode-to-outdata-oversize", "encode-writebuf-beyond-reserved", "encode-writebuf-negative-length", "encode-to-outdata-null" };
+
+/* ---- reference table: which RECEIVED alerts must end the session (everything else is "may be ignored": not asserted) ----
+ * close_notify is a closure alert at any level in every version (RFC 5246 7.2.1, RFC 8446 6.1).
+ * TLS 1.3 (RFC 8446 6): "All the alerts listed in Section 6.2 MUST be sent with AlertLevel=fatal and MUST be treated as error alerts when
+ *   received regardless of the AlertLevel in the message. Unknown Alert types MUST be treated as error alerts."  Only close_notify and
+ *   user_canceled(90) are not error alerts; user_canceled is left unasserted (the library treats it as fatal as well, which is stricter).
+ * TLS <= 1.2 / DTLS (RFC 5246 7.2, RFC 4346 7.2): level fatal(2) terminates the connection whatever the description; level warning(1)
+ *   may be ignored by the receiver; a level byte outside {1,2} is not a defined value and the library hands it up like a warning: not asserted. */
+static int alert_must_kill(int ver, int level, int desc)
+{
+    if (desc == 0) return 1;
+    if (ver == MX_TLS13) return desc != 90;
+    return level == 2;
+}
 enum { K_NEXT = 0, K_ORIGINAL, K_OLD, K_GARBAGE, K_HELLO, K_ENCODE, K_PUMP, K_DRAIN, K_N };
 static const char *kname[] = { "next-honest-records", "original-of-corrupted", "older-record-replay", "garbage", "fresh-clienthello", "app-encode", "honest-pump", "drain-loops" };
 
 typedef struct { int ev; int arg; int arg2; } ev_t;
-static ev_t events[400]; static int nev;
+static ev_t events[600]; static int nev;
 static unsigned char *fresh_ch[MX_NVER]; static int fresh_ch_len[MX_NVER];
 
 static void build_events(void)
@@ -51,6 +76,22 @@ static void build_events(void)
     events[nev++] = (ev_t) { EV_AUTH_ALERT, 1, 0 };
     events[nev++] = (ev_t) { EV_AUTH_TYPE, 24, 0 };
     events[nev++] = (ev_t) { EV_AUTH_TYPE, 25, 0 };
+    /* the warning-level twin of every error description, plaintext and authentic (RFC 8446 6: the level byte is irrelevant in TLS 1.3), the two
+       genuine warnings user_canceled / no_renegotiation and an unassigned description; thorough adds level bytes outside {1,2} */
+    static const int w_q[] = { 10, 20, 40, 47, 80, 90, 100, 255 };
+    static const int w_t[] = { 10, 20, 21, 22, 30, 40, 41, 42, 43, 44, 45, 46, 47, 48, 49, 50, 51, 60, 70, 71, 80, 86, 90, 100, 109, 110, 111, 112, 113, 114, 115, 116, 120, 5, 255 };
+    const int *wd = vf_thorough ? w_t : w_q; int nw = vf_thorough ? (int) (sizeof w_t / sizeof(int)) : (int) (sizeof w_q / sizeof(int));
+    for (int i = 0; i < nw; i++) { if (!(vf_thorough && wd[i] == 40)) events[nev++] = (ev_t) { EV_ALERT_IN, 1, wd[i] }; events[nev++] = (ev_t) { EV_AUTH_ALERT, 1, wd[i] }; }
+    if (vf_thorough) {
+        static const int lv[] = { 0, 3, 255 }; static const int ld[] = { 0, 20, 40, 90 };
+        for (int i = 0; i < 3; i++) for (int j = 0; j < 4; j++) { if (!(lv[i] == 3 && ld[j] == 40)) events[nev++] = (ev_t) { EV_ALERT_IN, lv[i], ld[j] }; events[nev++] = (ev_t) { EV_AUTH_ALERT, lv[i], ld[j] }; }
+        events[nev++] = (ev_t) { EV_ALERT_IN, 2, 255 }; events[nev++] = (ev_t) { EV_AUTH_ALERT, 2, 255 }; events[nev++] = (ev_t) { EV_AUTH_ALERT, 2, 0 };
+    }
+    /* DTLS: a datagram that ends before the record its header announces does */
+    for (int i = 0; i < TR_N; i++) events[nev++] = (ev_t) { EV_DTLS_TRUNC, i, 0 };
+    /* send-side errors */
+    for (int i = 0; i < SE_N; i++) events[nev++] = (ev_t) { EV_SEND_ERR, i, 0 };
+    if (nev > (int) (sizeof events / sizeof events[0])) { fprintf(stderr, "HARNESS: event table overflow\n"); exit(2); }
 }
 
 static struct { const mx_scn *scn; char desc[300]; const ev_t *ev; int kont; int cut; int appAtEvent; int afterEvent; } M;
@@ -127,6 +168,19 @@ static void child_run(void *a_)
         n = mx_seal_as(P, ty, body, bl, buf);
         if (n <= 0) { vf_stat("event_not_applicable", 1); return; }
         break; }
+    case EV_DTLS_TRUNC: {
+        /* the next honest datagram record, cut short: the 13-byte header (type, version, epoch, fresh sequence number, length) is the sender's own */
+        if (!dtls || !have_next || r.len < 4) { vf_stat("event_not_applicable", 1); vf_statf(1, "dtls_truncated_na_%s_npend%d", est ? "established" : "handshake", npend > 0); return; }
+        int keep = 0, first = 0; mx_rec r2 = r;
+        if (a->ev->arg == TR_SECOND_RECORD) {   /* [intact record][record cut mid-body] in one datagram */
+            if (!mx_rec_at(pend, npend, nextlen, dtls, &r2) || r2.len < 4) { vf_stat("event_not_applicable", 1); return; }
+            first = nextlen;
+        }
+        switch (a->ev->arg) { case TR_IN_HEADER: keep = 7; break; case TR_HEADER_ONLY: keep = r2.hdr; break; case TR_ONE_SHORT: keep = r2.hdr + r2.len - 1; break; default: keep = r2.hdr + r2.len / 2; }
+        norig = r2.hdr + r2.len; memcpy(orig, pend + first, norig); consumed = first + norig;
+        n = first + keep; memcpy(buf, pend, n);
+        break; }
+    case EV_SEND_ERR: n = 0; break;
     case EV_PEER_ALERT: case EV_PEER_CLOSE: {
         if (!est) { vf_stat("event_not_applicable", 1); return; }
         if (a->ev->ev == EV_PEER_CLOSE) { mx_actor = P->id; P->wantTake = 1; matrixSslEncodeClosureAlert(P->ssl); }
@@ -141,12 +195,34 @@ static void child_run(void *a_)
         break; }
     }
     int alertsBefore = T->nAlertIn, appBefore = T->nApp; (void) appBefore;
-    int rcEvent = T->dead ? -1 : mx_feed(T, buf, n);
+    unsigned flagsBefore = T->ssl->flags & (SSL_FLAGS_ERROR | SSL_FLAGS_CLOSED), closeBefore = T->ssl->bFlags & BFLAG_CLOSE_AFTER_SENT;
+    int rcEvent, sendFlagged = 0;
+    if (a->ev->ev == EV_SEND_ERR) {
+        /* a send-side call that cannot succeed; the call failing is not by itself a session failure (argument / limit errors leave the
+           session usable): the stays-dead clauses apply when the library flagged the session or queued an alert because of it */
+        if (T->dead) { vf_stat("event_not_applicable", 1); return; }
+        int outBefore = T->ssl->outlen, src = 0; static unsigned char big[4000];
+        mx_actor = T->id; T->wantTake = 1; MX_ENTER();
+        switch (a->ev->arg) {
+        case SE_OUTDATA_OVERSIZE:
+            /* DTLS only: larger than the PMTU can carry (documented PS_LIMIT_FAIL); TLS fragments any length */
+            memset(big, 'x', sizeof big); src = matrixSslEncodeToOutdata(T->ssl, big, sizeof big); break;
+        case SE_WRITEBUF_NO_RESERVE: src = matrixSslEncodeWritebuf(T->ssl, (uint32) (T->ssl->outsize - T->ssl->outlen + 1)); break;
+        case SE_WRITEBUF_NEGATIVE: src = matrixSslEncodeWritebuf(T->ssl, 0x80000001u); break;
+        default: src = matrixSslEncodeToOutdata(T->ssl, NULL, 16); break;
+        }
+        MX_LEAVE();
+        vf_statf(1, "send_error_%s_%s", sename[a->ev->arg], src < 0 ? "refused" : "accepted");
+        if (src < 0 && T->ssl->outlen != outBefore) vf_stat("send_error_left_output", 1);
+        if (src >= 0) { vf_stat("event_not_applicable", 1); return; }     /* the call was legal here (TLS fragmentation on an established session) */
+        rcEvent = 0;
+        sendFlagged = (T->ssl->flags & (SSL_FLAGS_ERROR | SSL_FLAGS_CLOSED)) != flagsBefore || (T->ssl->bFlags & BFLAG_CLOSE_AFTER_SENT) != closeBefore;
+    } else rcEvent = T->dead ? -1 : mx_feed(T, buf, n);
     k->qoff[dirToT] += consumed;
     M.afterEvent = 1;
     unsigned char *ob; int alertBytes = mx_take(T, &ob);       /* drains the alert; SentData should answer REQUEST_CLOSE */
-    int fatalIn = T->nAlertIn > alertsBefore && (T->alertLevel == 2 || T->alertDesc == 0 || (k->cfg.ver == MX_TLS13 && T->alertDesc != 90));
-    int recognised = rcEvent < 0 || T->dead || fatalIn || (alertBytes > 0 && (T->ssl->err != SSL_ALERT_NONE || T->closeReq));
+    int fatalIn = T->nAlertIn > alertsBefore && alert_must_kill(k->cfg.ver, T->alertLevel, T->alertDesc);
+    int recognised = rcEvent < 0 || T->dead || fatalIn || sendFlagged || (alertBytes > 0 && (T->ssl->err != SSL_ALERT_NONE || T->closeReq));
     /* an alert record produced by the event itself */
     if (alertBytes > 0 && !(ob[0] == 21 || (k->cfg.ver == MX_TLS13 && ob[0] == 23 && alertBytes <= 5 + 2 + 1 + 16 + 64)))
         if (recognised) report("non-alert-output-at-error", T, "event produced %d output bytes starting with record type %d", alertBytes, ob[0]);
@@ -163,12 +239,32 @@ static void child_run(void *a_)
         if (a->ev->ev == EV_AUTH_TYPE) must = 1;
         /* a corrupted record on a connection whose handshake is complete cannot be anything but a fatal error over TCP (every record is protected) */
         if (a->ev->ev == EV_CORRUPT && matrixSslHandshakeIsComplete(T->ssl)) must = 1;
-        if (a->ev->ev == EV_AUTH_ALERT && a->ev->arg == 2 && T->nAlertIn == alertsBefore) must = 1;
+        /* an alert the reference table calls an error / closure alert: authentic ones always reach the alert parser; plaintext ones do so
+           wherever the target is not (yet) reading protected records and, in TLS 1.3, wherever the library accepts a 2-byte plaintext alert
+           (elsewhere they fail deprotection, which is an error too).  Either way the session must end. */
+        if ((a->ev->ev == EV_AUTH_ALERT || a->ev->ev == EV_ALERT_IN) && alert_must_kill(k->cfg.ver, a->ev->arg, a->ev->arg2)) must = 1;
         /* A TLS 1.3 server that rejected the offered early data skips records it cannot deprotect until the client's handshake flight arrives
            (RFC 8446 4.2.10): a record sealed under the client's early-data key is such a record, whatever it contains. */
         if (must && k->cfg.ver == MX_TLS13 && T->role == MX_SERVER && T->ssl->tls13EarlyDataStatus == MATRIXSSL_EARLY_DATA_REJECTED && !matrixSslHandshakeIsComplete(T->ssl)) { must = 0; vf_stat("authentic_events_in_early_data_skip_mode_not_judged", 1); }
         if (must) report("protocol-error-not-fatal", T, "an authentic but illegal record (event arg %d/%d) was not treated as a fatal error: rc=%d alertBytes=%d", a->ev->arg, a->ev->arg2, rcEvent, alertBytes);
     }
+    if (!recognised && dtls) {
+        int must = 0;
+        /* DTLS may silently discard INVALID records (RFC 6347 4.1.2.7); an authentic, in-sequence record of the current epoch is not one:
+           a fatal-level alert or close_notify in it ends the association like in TLS */
+        if (a->ev->ev == EV_AUTH_ALERT && alert_must_kill(k->cfg.ver, a->ev->arg, a->ev->arg2)) must = 1;
+        if (must) report("protocol-error-not-fatal", T, "an authentic alert %d/%d of the current epoch was not treated as fatal: rc=%d alertBytes=%d", a->ev->arg, a->ev->arg2, rcEvent, alertBytes);
+        /* Library-defined fatal error (not an RFC obligation: RFC 6347 4.1.2.7 lets a receiver discard invalid records silently OR answer with a
+           fatal alert).  This library answers a datagram that ends inside a record whose 13-byte header is complete with a fatal
+           illegal_parameter ("DTLS error: Received PARTIAL record", sslDecode.c) in every state, for both roles and both DTLS versions - like it
+           does for every other damaged record - and the property statement tolerates undecryptable records only in TLS 1.3 early-data skipping
+           and lets no error path report success.  So: an error the library itself defines as fatal must not quietly become a success.  The key
+           names the entry; replacing the alert by an RFC-conformant silent discard has to be a conscious change of this table. */
+        if (a->ev->ev == EV_DTLS_TRUNC && a->ev->arg >= TR_HEADER_ONLY)
+            report("library-fatal-error-not-fatal", T, "datagram truncated %s (record header complete) was answered with rc=%d and %d alert bytes instead of the fatal illegal_parameter the library defines for it", trname[a->ev->arg], rcEvent, alertBytes);
+    }
+    if (dtls && (a->ev->ev == EV_CORRUPT || a->ev->ev == EV_BADVERSION)) vf_statf(1, "dtls_%s_%d_%s_%s", evname[a->ev->ev], a->ev->arg, matrixSslHandshakeIsComplete(T->ssl) ? "complete" : "handshake", recognised ? "fatal" : "not-an-error");
+    if (a->ev->ev == EV_DTLS_TRUNC) vf_statf(1, "dtls_truncated_%s_%s_%s", trname[a->ev->arg], est ? "established" : "handshake", recognised ? "fatal" : "not-an-error");
     if (!recognised) { vf_stat("event_not_recognised_as_error", 1); vf_statf(1, "unrecognised_%s_%s", evname[a->ev->ev], dtls ? "dtls" : "tls"); return; }
     vf_stat("events_recognised", 1);
     vf_distinct("%s|%s|ca%d|r%d|%s|cut%d|st%d|%s:%d:%d|%s", mx_vername[k->cfg.ver], M.scn->name, k->cfg.clientAuth, M.scn->resumed, a->target ? "S" : "C", a->cut, T->ssl->hsState, evname[a->ev->ev], a->ev->arg, a->ev->arg2, kname[a->kont]);
@@ -215,16 +311,29 @@ static void at_cut(mx_walk *w, mx_conn *k, int cut)
 {
     for (int e = 0; e < nev; e++) for (int c = 0; c < K_N; c++) {
         /* not every continuation for every alert description: alerts share the code path; rotate */
-        if (events[e].ev == EV_ALERT_IN && !vf_thorough && ((e + c + cut) % 3)) continue;
-        if (c == K_ORIGINAL && events[e].ev != EV_CORRUPT && events[e].ev != EV_BADVERSION) continue;
-        if (events[e].ev >= EV_AUTH_HS) {
+        if (events[e].ev == EV_ALERT_IN && !vf_thorough && events[e].arg2 != 0 && ((e + c + cut) % 3)) continue;
+        /* warning-level error descriptions matter in TLS 1.3 (level byte irrelevant); a TLS <= 1.2 receiver may ignore them (not asserted): the quick tier
+           keeps two representatives there */
+        if ((events[e].ev == EV_ALERT_IN || events[e].ev == EV_AUTH_ALERT) && !vf_thorough && k->cfg.ver != MX_TLS13 && events[e].arg == 1 && !(events[e].arg2 == 0 || events[e].arg2 == 40 || events[e].arg2 == 100)) continue;
+        /* thorough: every description at every level everywhere, continuations rotating (1 of 2 in TLS 1.3; 1 of 7 where the level decides and a
+           non-fatal level is not asserted) */
+        if ((events[e].ev == EV_ALERT_IN || events[e].ev == EV_AUTH_ALERT) && vf_thorough && events[e].arg != 2 && events[e].arg2 != 0 && ((e + c + cut) % (k->cfg.ver == MX_TLS13 ? 2 : 7))) continue;
+        if (events[e].ev == EV_AUTH_ALERT && !vf_thorough && events[e].arg == 1 && events[e].arg2 != 0 && ((e + c + cut) % 2)) continue;
+        if (c == K_ORIGINAL && events[e].ev != EV_CORRUPT && events[e].ev != EV_BADVERSION && events[e].ev != EV_DTLS_TRUNC) continue;
+        if (events[e].ev == EV_DTLS_TRUNC && !k->dtls) continue;
+        if (events[e].ev == EV_SEND_ERR) {
+            static const int sk[3] = { K_NEXT, K_ENCODE, K_PUMP };
+            if (events[e].arg == SE_OUTDATA_OVERSIZE && !k->dtls) continue;   /* TLS fragments any length: not an error */
+            if (!(c == K_NEXT || c == K_ENCODE || c == K_PUMP) || (!vf_thorough && c != sk[(e + cut) % 3])) continue;
+        }
+        if (events[e].ev >= EV_AUTH_HS && events[e].ev <= EV_AUTH_TYPE) {
             /* authentic records need a peer that is already encrypting and an empty wire (checked here, before forking) */
             mx_ep *P = w->target == MX_SERVER ? &k->c : &k->s; int d = w->target == MX_SERVER ? 0 : 1;
             if (!(P->ssl->flags & SSL_FLAGS_WRITE_SECURE) || P->ssl->outlen > 0 || k->qlen[d] > k->qoff[d]) continue;
             if (!vf_thorough && !(c == K_NEXT || c == K_ENCODE || c == K_PUMP || c == K_GARBAGE)) continue;
         }
         if ((events[e].ev == EV_PEER_ALERT || events[e].ev == EV_PEER_CLOSE) && !mx_conn_established(k)) continue;
-        if ((events[e].ev == EV_CORRUPT || events[e].ev == EV_BADVERSION)) { int d = w->target == MX_SERVER ? 0 : 1; mx_ep *P = w->target == MX_SERVER ? &k->c : &k->s; if (k->qlen[d] <= k->qoff[d] && P->ssl->outlen == 0 && !mx_conn_established(k)) continue; }
+        if ((events[e].ev == EV_CORRUPT || events[e].ev == EV_BADVERSION || events[e].ev == EV_DTLS_TRUNC)) { int d = w->target == MX_SERVER ? 0 : 1; mx_ep *P = w->target == MX_SERVER ? &k->c : &k->s; if (k->qlen[d] <= k->qoff[d] && P->ssl->outlen == 0 && !mx_conn_established(k)) continue; }
         long idx = g_case_idx++;
         if (!vf_mine(idx)) continue;
         child_arg a = { k, w->target, cut, &events[e], c };
